@@ -73,7 +73,8 @@ Variable float_parse : list N -> option N.
 
 (* std: printing a parsed float and parsing it again gives the same bits; the printed text is plain ASCII without blanks *)
 Hypothesis FLOAT : forall s b, float_parse s = Some b ->
-  no_edge_ws (float_fmt b) /\ utf8_valid (float_fmt b) = true /\ float_parse (float_fmt b) = Some b.
+  no_edge_ws (float_fmt b) /\ utf8_valid (float_fmt b) = true /\ float_parse (float_fmt b) = Some b /\
+  float_fmt b <> [] /\ forallb markup_free (float_fmt b) = true.
 (* UTF-8 is closed under unescaping and escaping *)
 Hypothesis UTF8C : forall raw u st st', utf8_valid raw = true -> unescape_string true raw st = Val (Ret u st') ->
   utf8_valid (escape_text u) = true.
@@ -120,8 +121,111 @@ Proof.
     + inv H as u1 s2 E2. destruct (oe_strict_ret _ _ _ _ _ _ E2).
   - left. destruct (negb (utf8_valid trimmed)); [discriminate H|].
     destruct (float_parse trimmed) as [b|] eqn:FP.
-    + injection H as <- _. destruct (FLOAT _ _ FP) as (A & B & C). constructor; assumption.
+    + injection H as <- _. destruct (FLOAT _ _ FP) as (A & B & C & _). constructor; assumption.
     + inv H as u1 s2 E2. destruct (oe_strict_ret _ _ _ _ _ _ E2).
+Qed.
+
+(* ---------- the printed form of a canonical value ---------- *)
+Hypothesis CLEAN_EN : forall s i, from_bytes tab_en s = Ok i -> clean_name s = true.
+
+Lemma clean_markup_free nm : clean_name nm = true -> forallb markup_free nm = true /\ forallb is_ws nm = false.
+Proof.
+  intros CN. destruct (clean_name_props nm CN) as (NE & FN). split.
+  - apply forallb_forall. intros c Hc. rewrite Forall_forall in FN. specialize (FN c Hc).
+    unfold markup_free. apply negb_true_iff. repeat (apply orb_false_iff; split); apply N.eqb_neq; tauto.
+  - destruct nm as [|c nm']; [congruence|]. inversion FN as [|? ? HC _]; subst. cbn [forallb]. destruct HC as (W & _). rewrite W. reflexivity.
+Qed.
+
+Lemma no_edge_nonblank s : s <> [] -> no_edge_ws s -> forallb is_ws s = false.
+Proof. destruct s as [|c s]; [congruence|]. intros _ [H _]. cbn [forallb]. rewrite H. reflexivity. Qed.
+
+Lemma escape_text_blank s : forallb is_ws s = false -> forallb is_ws (escape_text s) = false.
+Proof.
+  induction s as [|c s IH]; [discriminate|]. cbn [forallb]. intros H. rewrite escape_text_cons, forallb_app.
+  destruct (is_ws c) eqn:W.
+  - cbn [andb] in H. rewrite (IH H). apply andb_false_r.
+  - destruct (escape_byte_edges c) as (h & l & E & HH & _). rewrite E. cbn [forallb]. rewrite HH, W. reflexivity.
+Qed.
+
+(* a canonical value prints without markup bytes; and, unless it is a blank string, not as blanks *)
+Lemma valok_ser ver spec v : VALOK ver spec v ->
+  exists bytes, ser_cdata tab_en float_fmt v = Val bytes /\ forallb markup_free bytes = true /\
+    (match v with DString s => forallb is_ws s = false | _ => True end -> forallb is_ws bytes = false).
+Proof.
+  intros OK. destruct OK as [items item mask str TS NW FB FI IV|fn maxlen s PL NW LEN CF U|preserve maxlen s PW LEN U|n L|b NW U FP];
+    cbn [ser_cdata].
+  - rewrite TS. cbn [unwrap]. exists str. split; [reflexivity|]. destruct (clean_markup_free str (CLEAN_EN _ _ FB)) as [A B]. auto.
+  - exists (escape_text s). split; [reflexivity|]. split; [apply escape_no_markup|apply escape_text_blank].
+  - exists (escape_text s). split; [reflexivity|]. split; [apply escape_no_markup|apply escape_text_blank].
+  - destruct (dec_of_N_spec n) as (ds & E & F & NE & V). destruct (digits_props ds F NE) as (NW & U & MF).
+    exists (dec_of_N n). rewrite E. split; [reflexivity|]. split; [exact MF|]. intros _. apply no_edge_nonblank; assumption.
+  - destruct (FLOAT _ _ FP) as (A & B & C & D & E). exists (float_fmt b). split; [reflexivity|]. split; [exact E|].
+    intros _. apply no_edge_nonblank; assumption.
+Qed.
+
+(* ---------- attributes ---------- *)
+Variable tab_at : nametab.
+Hypothesis CLEAN_AT : forall s i, from_bytes tab_at s = Ok i -> clean_name s = true.
+
+Definition known_attrb (ty : etype) (a : N * cdata) : bool :=
+  match find_attribute_spec T ty (fst a) with
+  | Val (Some (_, ctype, _, _)) => known_valueb ctype (snd a)
+  | _ => false
+  end.
+
+Notation ATTROK := (AttrOk T tab_at tab_en check_fn float_fmt float_parse).
+Notation AL := (attr_loop true T tab_at tab_en check_fn float_parse).
+Notation PAT := (parse_attribute_text true T tab_at tab_en check_fn float_parse).
+
+Definition AttrCanon (ver : N) (ty : etype) (a : N * cdata) : Prop := ATTROK ver ty a \/ known_attrb ty a = true.
+
+Lemma attr_loop_canon fuel ty : forall rem attrs st r st',
+  AL fuel ty rem attrs st = Val (Ret r st') ->
+  Forall (AttrCanon (p_version st) ty) attrs -> Forall (AttrCanon (p_version st) ty) (snd r).
+Proof.
+  induction fuel as [|f IH]; intros rem attrs st r st' H FA; [discriminate H|]. cbn [attr_loop] in H.
+  destruct (find_byte 61 rem) as [eq_pos|]; [|injection H as <- _; exact FA].
+  destruct (List.length rem - eq_pos <? 3)%nat; [injection H as <- _; exact FA|].
+  destruct (negb (nth (S eq_pos) rem 0 =? 34) && negb (nth (S eq_pos) rem 0 =? 39)); [injection H as <- _; exact FA|].
+  destruct (find_byte (nth (S eq_pos) rem 0) (skipn (eq_pos + 2) rem)) as [endq|]; [|injection H as <- _; exact FA].
+  inv H as nm s1 E1. apply lift_ret_inv in E1 as [NM ->].
+  inv H as attrs' s2 E2.
+  assert (A2 : Forall (AttrCanon (p_version st) ty) attrs' /\ p_version s2 = p_version st).
+  { destruct nm as [attr_name|].
+    - unfold name_of in NM. destruct (from_bytes tab_at (firstn eq_pos rem)) as [i| |] eqn:FB; try discriminate NM. injection NM as ->.
+      inv E2 as sp s3 E3. apply lift_ret_inv in E3 as [FS ->].
+      destruct sp as [[[[cdid ctype] req] vm]|].
+      + inv E2 as g s4 E4. apply get_ret_inv in E4 as [-> ->].
+        inv E2 as u s5 E5. pose proof (vpres_inv _ _ _ _ (vp_check_version true _ _ _ _) E5) as V5.
+        apply check_version_ret in E5.
+        inv E2 as v s6 E6. pose proof (vpres_inv _ _ _ _ (vp_pcd tab_en check_fn float_parse true _ _) E6) as V6.
+        apply pcd_canon in E6. rewrite V5 in E6. injection E2 as <- <-.
+        split; [|congruence]. apply Forall_app. split; [exact FA|]. constructor; [|constructor].
+        destruct E6 as [VO|KV].
+        * left. destruct (valok_ser _ _ _ VO) as (bytes & SC & MF & _).
+          exists (firstn eq_pos rem), cdid, ctype, req, vm, bytes. cbn [fst snd].
+          split; [exact (from_bytes_only_members _ _ _ FB)|]. split; [exact (CLEAN_AT _ _ FB)|]. auto 8.
+        * right. unfold known_attrb. cbn [fst snd]. rewrite FS. exact KV.
+      + inv E2 as g s4 E4. inv E2 as u s5 E5. destruct (oe_strict_ret _ _ _ _ _ _ E5).
+    - inv E2 as g s4 E4. inv E2 as u s5 E5. destruct (oe_strict_ret _ _ _ _ _ _ E5). }
+  destruct A2 as [A2 V2].
+  match type of H with (if ?c then _ else _) _ = _ => destruct c end.
+  - injection H as <- _. exact A2.
+  - rewrite <- V2. eapply IH; [exact H|]. rewrite V2. exact A2.
+Qed.
+
+(* C01 first half, attributes: every attribute is AttrOk or in a recorded class; the required ones are present *)
+Theorem pat_canon ty text st attrs st' : PAT ty text st = Val (Ret attrs st') ->
+  Forall (AttrCanon (p_version st) ty) attrs /\
+  exists specs, attribute_spec_list T ty = Val specs /\
+    forall name cdid c req, In (name, cdid, c, req) specs -> req <> 0 -> existsb (fun a => fst a =? name) attrs = true.
+Proof.
+  unfold parse_attribute_text. intros H. inv H as r s1 E1. destruct r as [rem attrs0].
+  pose proof (attr_loop_canon _ _ _ _ _ _ _ E1 (Forall_nil _)) as FA. cbn [snd] in FA.
+  inv H as g s2 E2. inv H as u1 s3 E3. inv H as specs s4 E4. apply lift_ret_inv in E4 as [SL ->].
+  inv H as u2 s5 E5. injection H as <- _. apply req_loop_ret in E5.
+  split; [exact FA|]. exists specs. split; [exact SL|].
+  intros name cdid c req HIn NZ. rewrite Forall_forall in E5. exact (E5 _ HIn NZ).
 Qed.
 
 End CanonValues.
